@@ -25,3 +25,16 @@ claim("C16", "proof",
       "the postcondition is the mathematical definition (CBMC bit-vector primitive and an independent bit-loop oracle). clz/ctz/ilog2 are verified against their callee's contract.",
       "Trusted: CBMC and its SAT back end; compiler constant folding for the compile-time use of the macros (sampled by _Static_assert only).",
       "DESIGN.md 5.C16")
+
+claim("C17", "proof",
+      "CBMC function contract (goto-instrument --dfcc) on the real rand31_r against 64-bit reference arithmetic; full state domain split into 16/64 partitions, all run",
+      "All 2^31-2 states are covered symbolically: the union of the partitions is the whole domain and every partition is a complete proof of the postcondition "
+      "result == 16807*s mod (2^31-1), new state == result, result in 1..2^31-2.",
+      "Trusted: CBMC, CaDiCaL. Full period is the textbook consequence (primitive root), stated not machine-checked.",
+      "DESIGN.md 5.C17")
+claim("C19", "proof",
+      "CBMC step contract with ghost latched position on the real rotenc_decode / rotenc_count / rotenc_count14, every decoder state, induction over the sequence",
+      "From every state satisfying the invariant and for every next 2-bit input the delta table of the statement and the two readings' relation to the latched position are proved; "
+      "the invariant is re-established, so sequences of any length are covered by induction from ROTENC_VAR_INIT.",
+      "Ghost 'latched position' is maintained by the harness at detent visits (definition from the statement). One-click bound only for single-bit motion.",
+      "DESIGN.md 5.C19")
